@@ -286,7 +286,8 @@ def script_w4(p, phase=None):
             lh, p["nit"], (lambda i: (ns["a"] if i < ns["at"] else ns["b"])) if isinstance(ns, dict) else ns,
             mini, ic, output_directory=odir, save_strategy=p["strategy"],
             plot_energy_history=False, plot_minisanity_history=False, return_final_position=True,
-            comm=comm, inspect_callback=lambda s, i: seen.append((i, s.n_samples)), **kw)
+            comm=(lambda i: comm) if p.get("comm_callable") else comm,
+            inspect_callback=lambda s, i: seen.append((i, s.n_samples)), **kw)
         out = {"samples": list(sl.iterator()), "n_samples": sl.n_samples, "mean": mean}
         if phase is None:
             out["callback"] = seen
@@ -478,7 +479,7 @@ def gen_params(script, rng):
                 "point_estimates": rng.choice([[], [], ["b"], "callable"]),
                 "odir": rng.random() < 0.7, "transitions": rng.random() < 0.3,
                 "fresh": rng.choice(["true", "true", "only0", "alt"]), "export": False,
-                "napprox": rng.choice([0, 2])}
+                "napprox": rng.choice([0, 2]), "comm_callable": rng.random() < 0.3}
     if script == "W5":
         p = gen_params("W4", rng)
         p["nit"] = rng.choice([3, 3, 4])
